@@ -115,6 +115,7 @@ class Summary:
     unknown_calls: int = 0
     resolved_calls: int = 0
     stores_of_params: list = field(default_factory=list)  # (param loc stored into heap key)
+    captures: list = field(default_factory=list)  # (event index, class name, arg V, call node): objects that keep a caller's list
 
     def mutated_roots(self) -> set:
         out = set()
@@ -1019,6 +1020,8 @@ class FuncAnalysis:
         objv = V(frozenset({obj}), frozenset({ci.name}))
         init = self.ix.lookup(ci, "__init__")
         self.sum.resolved_calls += 1
+        if ci.name in ("State", "AnnotatedState") and args:
+            self.sum.captures.append((len(self.sum.events), ci.name, args[0], node))
         if init and init[0] == "method":
             self.apply(init[1], [objv, *args], kwargs, st, node, recv=objv)
             return objv
